@@ -49,6 +49,7 @@ type vpSim struct {
 	decodeErrs []string
 	log        []string
 	fwdToSeen  []string // forwarded to a node already in the seen-by list
+	gotAt      map[string]int // "node origin seq" -> number of deliveries of that announcement to the node (accepted or not)
 }
 
 func vpSimID(i int) identity.AgentID {
@@ -252,6 +253,10 @@ func (s *vpSim) deliver(link [2]int, i int, keep bool) {
 			s.decodeErrs = append(s.decodeErrs, fmt.Sprintf("node %d could not decode the route advertisement (origin %d seq %d) sent by node %d: %v", to, fr.origin, fr.seq, from, err))
 			return
 		}
+		if s.gotAt == nil {
+			s.gotAt = map[string]int{}
+		}
+		s.gotAt[fmt.Sprintf("node %d origin %d seq %d", to, s.idx(adv.OriginAgent), adv.Sequence)]++
 		ok := nd.fl.HandleRouteAdvertise(s.nodes[from].id, adv.OriginAgent, adv.OriginDisplayName, adv.Sequence, adv.Routes, adv.EncPath, adv.SeenBy)
 		s.logf("deliver(%d->%d origin=%d seq=%d dup=%v)=%v", from, to, s.idx(adv.OriginAgent), adv.Sequence, keep, ok)
 		if ok {
